@@ -24,4 +24,7 @@ def runWorkerOp : H := fun j => do
     let b := Batch.runWorkerNBatches nb ps
     return Json.mkObj [("nSamples", jNat ns), ("nBatches", jInt b), ("tasks", jPairs (Batch.batchTasks ns b 0))]
 
+def batchOps : List (String × H) :=
+  [("batch.tasks", batchTasksOp), ("batch.arr", batchArrOp), ("batch.runworker", runWorkerOp)]
+
 end Drive
